@@ -989,14 +989,9 @@ func rulePARSE8(p *Program) *RuleResult {
 	if err != nil {
 		return r.anchorFail(err)
 	}
-	var clone *ssa.Function
-	for _, fn := range p.RepoFuncs() {
-		if fn.Pkg == sp && fn.Name() == "clone" && fn.Signature.Recv() != nil {
-			clone = fn
-		}
-	}
-	if clone == nil {
-		return r.anchorFail(fmt.Errorf("anchor: (*FHIRPathVisitor).clone not found"))
+	clone, err := p.Method("fhirpath/internal/parser", "FHIRPathVisitor", "clone")
+	if err != nil {
+		return r.anchorFail(err)
 	}
 	binary := map[string]bool{}
 	for _, n := range binaryVisitors {
